@@ -64,12 +64,13 @@ class HarnessGap(RuntimeError):
 # builders
 
 
-def _name(bid):
-    return f'v{bid}'
+def _name(bid, salt=0):
+    return f'v{bid}_{salt}' if salt else f'v{bid}'
 
 
 class _Direct:
-    def __init__(self, api_like, agg):
+    def __init__(self, api_like, agg, salt=0):
+        self.salt = salt
         from hail import ir
         from hail.expr.types import tarray, tint32, tstruct
 
@@ -92,7 +93,7 @@ class _Direct:
         if bid == E.ROW:
             x = ir.GetField(ir.Ref('row', self.rowt), 'idx')
         else:
-            x = ir.Ref(_name(bid), self.vtypes[bid])
+            x = ir.Ref(_name(bid, self.salt), self.vtypes[bid])
         self.vars[bid] = x
         return x
 
@@ -119,7 +120,7 @@ class _Direct:
             _, tv, _, bid, v, body = t
             self.vtypes[bid] = self.types[tv]
             vv = self.b(v)
-            x = ir.Let(_name(bid), vv, self.b(body))
+            x = ir.Let(_name(bid, self.salt), vv, self.b(body))
         elif k == 'mks':
             a = self.b(t[1])
             x = ir.MakeStruct([('a', a), ('b', self.b(t[2]))])
@@ -132,13 +133,13 @@ class _Direct:
             self.vtypes[bid] = self.types['i']
             a = self.stream(self.b(arr))
             cls = ir.StreamMap if k == 'map' else ir.StreamFilter
-            x = ir.ToArray(cls(a, _name(bid), self.b(body)))
+            x = ir.ToArray(cls(a, _name(bid, self.salt), self.b(body)))
         elif k == 'fold':
             _, bacc, bval, arr, zero, body = t
             self.vtypes[bacc] = self.vtypes[bval] = self.types['i']
             a = self.stream(self.b(arr))
             z = self.b(zero)
-            x = ir.StreamFold(a, z, _name(bacc), _name(bval), self.b(body))
+            x = ir.StreamFold(a, z, _name(bacc, self.salt), _name(bval, self.salt), self.b(body))
         elif k == 'len':
             x = ir.ArrayLen(self.b(t[1]))
         elif k == 'aggmax':
@@ -163,8 +164,13 @@ class _Direct:
 
 
 class _Api:
-    def __init__(self, agg):
+    def __init__(self, agg, salt=0):
         self.hl = _hl()
+        from hail.utils.java import Env
+
+        # the API names variables __uid_<counter>: pin the counter so that names (hence the iteration order of the sets of
+        # free variables inside the renderer) are a function of (program, salt) only, and vary with the salt
+        Env._counter = 1000 * salt
         self.agg = agg
         self.done = []
         self.vars = {}
@@ -253,14 +259,25 @@ class _Api:
         return x._ir
 
 
-def build(mode, term, agg=None):
-    if mode == 'api':
-        return _Api(agg).root(term)
-    return _Direct(mode == 'direct', agg).root(term)
+def build(mode, term, agg=None, salt=0, want=None):
+    """want: completion index of a node whose IR object should be returned too"""
+    b = _Api(agg, salt) if mode == 'api' else _Direct(mode == 'direct', agg, salt)
+    root = b.root(term)
+    if want is None:
+        return root
+    node = b.done[want]
+    node = node._ir if mode == 'api' else node
+    names = {}
+    for bid, v in b.vars.items():
+        x = v._ir if mode == 'api' else v
+        if hasattr(x, 'name'):
+            names[x.name] = bid
+    return root, node, names
 
 
 MODES = ('api', 'direct', 'direct2')
 TWO_MODES = ('api', 'direct2')
+NEST_SALTS = (0, 1, 2, 3, 4, 5)
 
 
 # ---------------------------------------------------------------------------------------------------------------
@@ -473,27 +490,43 @@ def norm(v):
     return v
 
 
-def run_case(term, agg=None, modes=MODES):
-    """-> (violations [(signature, message, mode)], info dict)"""
+def run_case(term, agg=None, modes=MODES, salts=(0,), shared=None, ranks=None, adaptive=False):
+    """-> (violations [(signature, message, mode, salt)], info dict).
+    salts: each build is repeated with these variable-name assignments.  shared / ranks (nested-binder family): completion
+    index of the shared node over variables of different binding depth and {binder id: depth rank}; the iteration order of that
+    node's free-variable set is recorded per build, and with adaptive=True a mode stops trying salts (after 2) once it has
+    seen both a deepest-variable-last and a shallower-variable-last order."""
     _hl()
     render = _state['hailenv'].render
     out = []
-    info = {'lets': 0, 'agglets': 0, 'scanlets': 0, 'texts': {}}
+    info = {'lets': 0, 'agglets': 0, 'scanlets': 0, 'texts': {}, 'orders': {}, 'builds': 0, 'both_orders': True}
     expect = [norm(ev_term(term, lit, agg)) for lit in VALUATIONS]
-    for mode in modes:
-        root = build(mode, term, agg)
+    for mode, salt in [(m, sl) for m in modes for sl in salts]:
+        if shared is not None:
+            seen = info['orders'].setdefault(mode, {})
+            if adaptive and salt != salts[0] and salt != salts[1] and len(seen) >= 2:
+                continue
+            root, node, names = build(mode, term, agg, salt, shared)
+            order = [names[v] for v in node.free_vars if v in names]
+            deepest = max(ranks[b] for b in order)
+            cls = 'deepest-variable-last' if ranks[order[-1]] == deepest else 'shallower-variable-last'
+            seen[cls] = seen.get(cls, 0) + 1
+        else:
+            root = build(mode, term, agg, salt)
+        info['builds'] += 1
         try:
             text = render(root)
         except Exception as e:  # noqa: BLE001
-            out.append((f'render-raised:{type(e).__name__}', f'CSERenderer raised {type(e).__name__}: {e}', mode))
+            out.append((f'render-raised:{type(e).__name__}', f'CSERenderer raised {type(e).__name__}: {e}', mode, salt))
             continue
-        info['texts'][mode] = text
+        info['texts'][(mode, salt)] = text
+        info['texts'].setdefault(mode, text)
         ast = R.parse(text)
         for nm, kind in R.lifted_names(ast):
             info['lets' if kind == 'value' else ('agglets' if kind == 'agg' else 'scanlets')] += 1
         probs = R.check_scopes(ast)
         for kind, name, where in probs:
-            out.append((kind, f'{kind}: {name} (inside lifted binding {where})' if where else f'{kind}: {name}', mode))
+            out.append((kind, f'{kind}: {name} (inside lifted binding {where})' if where else f'{kind}: {name}', mode, salt))
         for vi, lit in enumerate(VALUATIONS):
             tree = norm(ev_obj(root, lit))
             if agg != 'scan' and tree != expect[vi]:
@@ -507,25 +540,43 @@ def run_case(term, agg=None, modes=MODES):
                     raise HarnessGap(f'evaluator met unbound {e} but the scope check passed: {text}')
                 continue
             if got != tree:
-                out.append(('value-differs', f'rendered text evaluates to {got}, inlined IR to {tree} (valuation {vi})', mode))
+                out.append(('value-differs', f'rendered text evaluates to {got}, inlined IR to {tree} (valuation {vi})', mode, salt))
                 break
+    if shared is not None:
+        info['both_orders'] = all(len(v) >= 2 for v in info['orders'].values())
     return out, info
 
 
 def _case_worker(job):
     size, optname, agg, shard, nshards, modes = job
-    opts = {'full': FULL, 'nolit': NO_LIT_SHARING, 'freelit': FREE_LITS, 'agg': dict(AGG_OPTS, agg=agg)}[optname]
-    roots = ('i',) if agg else E.VALUE_TYPES
     n = shared = with_lets = with_agglets = with_scanlets = nontrivial = 0
     total_lets = 0
     viols = {}
     vcount = {}
     sample = None
-    for rt, term in E.programs(size, roots, opts, shard, nshards):
+    nest = {'programs': 0, 'builds': 0, 'orders': {}, 'programs_with_both_orders_in_every_build_mode': 0}
+    if optname in ('nest', 'nest-add', 'nest-all-salts'):
+        sk = E.SKELETONS[shard]
+        ops = ('add',) if optname == 'nest-add' else ('add', 'mul')
+        gen_ = ((rt, term, sh_idx) for _, rt, term, sh_idx in E.nested_programs(size, shard, ops))
+    else:
+        opts = {'full': FULL, 'nolit': NO_LIT_SHARING, 'freelit': FREE_LITS, 'agg': dict(AGG_OPTS, agg=agg)}[optname]
+        roots = ('i',) if agg else E.VALUE_TYPES
+        gen_ = ((rt, term, None) for rt, term in E.programs(size, roots, opts, shard, nshards))
+    for rt, term, sh_idx in gen_:
         n += 1
         sh = E.has_sharing(term)
         shared += sh
-        vs, info = run_case(term, agg, modes)
+        if sh_idx is None:
+            vs, info = run_case(term, agg, modes)
+        else:
+            vs, info = run_case(term, agg, modes, NEST_SALTS, sh_idx, sk[4], adaptive=optname != 'nest-all-salts')
+            nest['programs'] += 1
+            nest['builds'] += info['builds']
+            nest['programs_with_both_orders_in_every_build_mode'] += info['both_orders']
+            for m, d in info['orders'].items():
+                for c, k in d.items():
+                    nest['orders'][f'{m}:{c}'] = nest['orders'].get(f'{m}:{c}', 0) + k
         with_lets += info['lets'] > 0
         with_agglets += info['agglets'] > 0
         with_scanlets += info['scanlets'] > 0
@@ -535,14 +586,15 @@ def _case_worker(job):
             if sample is None or (info['agglets'] + info['scanlets'] > 0 and not sample.get('agg_let')):
                 sample = {'term': repr(term), 'rendered': info['texts'].get('api', ''),
                           'agg_let': info['agglets'] + info['scanlets'] > 0}
-        for sig, msg, mode in vs:
+        for sig, msg, mode, salt in vs:
             key = sig if mode == 'api' else f'{sig}:{mode}-ir'
             vcount[key] = vcount.get(key, 0) + 1
             if key not in viols:
-                viols[key] = (msg, {'term': term, 'agg': agg, 'mode': mode, 'size': size}, info['texts'].get(mode, ''))
+                viols[key] = (msg, {'term': term, 'agg': agg, 'mode': mode, 'size': size, 'salt': salt},
+                              info['texts'].get((mode, salt), ''))
     return {'job': job, 'n': n, 'shared': shared, 'with_lets': with_lets, 'with_agglets': with_agglets,
             'with_scanlets': with_scanlets, 'total_lets': total_lets, 'viols': viols, 'sample': sample,
-            'nontrivial': nontrivial, 'vcount': vcount}
+            'nontrivial': nontrivial, 'vcount': vcount, 'nest': nest}
 
 
 def plan(tier):
@@ -557,6 +609,12 @@ def plan(tier):
         p += [(n, 'freelit', None, 1) for n in range(1, 4)] + [(4, 'freelit', None, 16), (5, 'freelit', None, 256)]
         p += [(n, 'agg', a, 1) for n in range(2, 5) for a in ('agg', 'scan')]
         p += [(5, 'agg', 'agg', 2), (5, 'agg', 'scan', 6), (6, 'agg', 'agg', 16), (6, 'agg', 'scan', 64)]
+    # targeted family: nested binders, one shard per skeleton
+    nsk = len(E.SKELETONS)
+    if tier == 'quick':
+        p += [(4, 'nest', None, nsk), (5, 'nest-add', None, nsk)]
+    else:
+        p += [(4, 'nest-all-salts', None, nsk), (5, 'nest-all-salts', None, nsk)]
     return p
 
 
@@ -574,7 +632,8 @@ def check(tier, seed, procs):
     jobs = []
     for size, g, agg, ns in plan(tier):
         # the biggest slices (thorough tier only) skip the 'direct' build, which differs from 'api' only where the API simplifies
-        modes = TWO_MODES if (g, size) in (('full', 6), ('nolit', 7), ('freelit', 5)) or (g == 'agg' and size == 6) else MODES
+        modes = TWO_MODES if (g, size) in (('full', 6), ('nolit', 7), ('freelit', 5)) or (g == 'agg' and size == 6) \
+            or g in ('nest', 'nest-add') else MODES
         jobs += [(size, g, agg, k, ns, modes) for k in range(ns)]
     order = sorted(par.rotate(jobs, seed), key=lambda j: -j[0])   # big shards first for balance; set is unchanged
     rows = par.pmap(_case_worker, order, procs, chunksize=1)
@@ -596,7 +655,7 @@ def check(tier, seed, procs):
     samples = [r['sample'] for r in rows if r['sample']]
     samples = [s for s in samples if s.get('agg_let')][:2] + [s for s in samples if not s.get('agg_let')][:3]
     cov = {
-        'evaluations': sum(r['n'] * len(r['job'][5]) for r in rows) * len(VALUATIONS),
+        'evaluations': sum(r['nest']['builds'] if r['job'][1].startswith('nest') else r['n'] * len(r['job'][5]) for r in rows) * len(VALUATIONS),
         'distinct_nontrivial': sum(r['nontrivial'] for r in rows),
         'rule': 'a case is one expression DAG (distinct by construction: each DAG has exactly one spelling in the '
                 'enumeration); it is counted as non-trivial when the real renderer lifted at least one shared sub-DAG '
@@ -608,7 +667,9 @@ def check(tier, seed, procs):
                    'aggregation / scan sub-grammar <= 5 nodes' if tier == 'quick' else
                    'every DAG with <= 6 nodes (full grammar), every DAG with 7 nodes where literal leaves are not shared, '
                    'every DAG with <= 5 non-literal nodes and any number of unshared literal leaves; '
-                   'aggregation / scan sub-grammar <= 6 nodes') + f'; {len(MODES)} builds (2 on the largest thorough-only slices) x {len(VALUATIONS)} literal valuations each',
+                   'aggregation / scan sub-grammar <= 6 nodes') + f'; {len(MODES)} builds (2 on the largest thorough-only slices) x {len(VALUATIONS)} literal valuations each'
+                  '; plus the nested-binder family (14 skeletons of binder depth 2-3, every innermost body of 4-5 nodes sharing a '
+                  'node over variables of different depths (quick: 5-node bodies use + only), each under 2-6 variable-name assignments)',
         'programs': n,
         'programs_per_slice': per,
         'programs_with_sharing': sum(r['shared'] for r in rows),
@@ -617,6 +678,17 @@ def check(tier, seed, procs):
         'programs_with_lifted_scan_let': with_scan,
         'lifted_lets_total': sum(r['total_lets'] for r in rows),
         'builds_per_program': list(MODES),
+        'nested_binder_family': {
+            'what': 'skeletons ' + ', '.join(sk[0] for sk in E.SKELETONS) + '; the innermost body has 4-5 nodes (no further binder) and '
+                    'shares a node over variables bound at different depths; each build repeated under several variable-name '
+                    'assignments (direct: v<i>_<salt>; api: Env uid counter pinned to 1000*salt) until the shared node\'s '
+                    'free-variable set was iterated both with the deepest variable last and with a shallower one last',
+            'programs': sum(r['nest']['programs'] for r in rows),
+            'builds': sum(r['nest']['builds'] for r in rows),
+            'free_variable_iteration_orders_observed': {k: sum(r['nest']['orders'].get(k, 0) for r in rows)
+                                                        for k in sorted({k for r in rows for k in r['nest']['orders']})},
+            'programs_with_both_orders_in_every_build_mode': sum(r['nest']['programs_with_both_orders_in_every_build_mode'] for r in rows),
+        },
         'violating_builds_per_signature': {k: sum(r['vcount'].get(k, 0) for r in rows)
                                            for k in sorted({k for r in rows for k in r['vcount']})},
     }
@@ -660,7 +732,7 @@ def _selfcheck():
 
 def replay(obj):
     term = _fromjson(obj['term'])
-    vs, info = run_case(term, obj.get('agg'), modes=(obj['mode'],))
+    vs, info = run_case(term, obj.get('agg'), modes=(obj['mode'],), salts=(obj.get('salt', 0),))
     if vs:
         return False, f'{vs[0][0]}: {vs[0][1]}; text={info["texts"].get(obj["mode"])}'
     return True, 'no violation'
